@@ -10,6 +10,7 @@ GrowsSmall == {-2, 0, 1}
 (* grids: <<min, width-numerator, width-denominator>> : bounds b_j = min + (j-1)*w *)
 GridsDef == { <<1, 1, 1>>, <<2, 2, 1>>, <<1, 1, 2>> }
 GridsQ == { <<1, 1, 2>> }
+GridsT == { <<1, 1, 1>>, <<2, 2, 1>> }      \* the thorough tier explores these two; with the quick tier's grid that is GridsDef (one run over all three took 35-50 min)
 Bounds(gr) == [j \in 1..(K + 1) |-> RAdd(RI(gr[1]), RMul(RI(j - 1), R(gr[2], gr[3])))]
 b == Bounds(grid)
 (* nucleation radius positions: 0 = below the grid, 2i-1 = lower bound of class i, 2i = interior of class i,
